@@ -1,5 +1,6 @@
 /* Monitor for C01: every destination pixel of pixman_image_composite32 against the
  * compositing equations (exact integer rule / real-valued interval). */
+#include "vf_recipes.h"    /* table-directed steering only: which (operator, formats, mask mode) the implementations have routines for */
 #include "vf.h"
 #include "vf_req.h"
 #include "ref_pixel.h"
@@ -11,6 +12,7 @@ static int n_dst, n_src;
 
 static void init (void)
 {
+    collect ();
     for (int i = 0; i < rp_nformats; i++) {
         pixman_format_code_t c = rp_formats[i].code;
         if (!rp_is_direct (c)) continue;
@@ -82,7 +84,7 @@ static void put_generated (vf_rng *r, pixman_format_code_t f, uint8_t *row, int 
     vf_put_px (row, bpp, x, raw);
 }
 
-typedef struct { vf_buf buf; pixman_image_t *img; pixman_format_code_t fmt; int solid; uint8_t solid8[4]; int has16; uint16_t solid16[4]; int w;
+typedef struct { vf_buf buf; pixman_image_t *img; pixman_format_code_t fmt; int solid; uint8_t solid8[4]; int has16; uint16_t solid16[4]; int has_one; uint8_t one8[4]; double onef[4]; int w;
                  int xo, yo;        /* offset of the request inside the image (shared-storage operands only; 0 otherwise) */
                  int borrowed;      /* the storage belongs to another operand */
                  int xdiv;          /* 2: the image is read through a 2x enlarging NEAREST transform (request pixel x samples image pixel x/2); else 0 */
@@ -90,6 +92,11 @@ typedef struct { vf_buf buf; pixman_image_t *img; pixman_format_code_t fmt; int 
 
 static void operand_free (operand_t *o) { if (o->img) pixman_image_unref (o->img); if (!o->solid && !o->borrowed) vf_buf_free (&o->buf); free (o->pal); memset (o, 0, sizeof *o); }
 
+/* accessors that keep the storage XOR-ed: an image that is read behind its accessors' back shows a different pixel */
+static uint32_t xacc_read (const void *src, int size)
+{ switch (size) { case 1: return *(const uint8_t *)src ^ 0x5au; case 2: { uint16_t v; memcpy (&v, src, 2); return v ^ 0x5a5au; } default: { uint32_t v; memcpy (&v, src, 4); return v ^ 0x5a5a5a5au; } } }
+static void xacc_write (void *dst, uint32_t value, int size)
+{ switch (size) { case 1: *(uint8_t *)dst = (uint8_t)(value ^ 0x5a); break; case 2: { uint16_t v = (uint16_t)(value ^ 0x5a5a); memcpy (dst, &v, 2); break; } default: value ^= 0x5a5a5a5au; memcpy (dst, &value, 4); break; } }
 static int force_runs;
 static int solid16_ok;   /* the destination is a wide format: the request certainly runs in the float pipeline, where a solid fill enters as c/65535 */
 /* kind: 0 bits image of width n, 1 solid fill, 2 1x1 repeating bits */
@@ -133,12 +140,19 @@ static int operand_make (operand_t *o, vf_rng *r, pixman_format_code_t f, int n,
     o->img = vf_buf_image (&o->buf);
     if (!o->img) { vf_buf_free (&o->buf); return 0; }
     if (o->pal) pixman_image_set_indexed (o->img, o->pal);
-    if (kind == 2) { pixman_image_set_repeat (o->img, PIXMAN_REPEAT_NORMAL); o->w = 1; }
+    if (kind == 2) { pixman_image_set_repeat (o->img, PIXMAN_REPEAT_NORMAL); o->w = 1;
+        /* a third of the 1x1 repeating operands are read through accessors (the library classifies 1x1 repeating images as solid colours and has
+         * shortcuts that fetch such a colour straight from memory) */
+        if (!o->pal && !rp_is_float (f) && o->buf.bpp <= 32 && (o->buf.bpp == 8 || o->buf.bpp == 16 || o->buf.bpp == 32) && vf_chance (r, 1, 3)) {
+            rp_decode8 (f, vf_get_px (vf_buf_row (&o->buf, 0), o->buf.bpp, 0), o->one8); rp_decodef_row (f, vf_buf_row (&o->buf, 0), 0, o->onef); o->has_one = 1;
+            uint8_t *row = vf_buf_row (&o->buf, 0); for (int i = 0; i < o->buf.bpp / 8; i++) row[i] ^= 0x5a;
+            pixman_image_set_accessors (o->img, xacc_read, xacc_write); vf_count ("one_pixel_operands_behind_accessors", 1); } }
     return 1;
 }
 static void operand_px8 (const operand_t *o, int x, uint8_t p[4])
 {
     if (o->solid) { memcpy (p, o->solid8, 4); return; }
+    if (o->has_one) { memcpy (p, o->one8, 4); return; }
     if (o->w == 1) x = 0;
     if (o->xdiv) x /= o->xdiv;
     if (o->pal) { uint32_t raw = vf_get_px (vf_buf_row (&o->buf, o->yo), o->buf.bpp, x + o->xo), c = o->pal->rgba[raw & ((1u << o->buf.bpp) - 1) & 0xff];
@@ -149,6 +163,7 @@ static void operand_pxf (const operand_t *o, int x, double p[4])
 {
     if (o->solid && o->has16) { for (int c = 0; c < 4; c++) p[c] = o->solid16[c] / 65535.0; return; }
     if (o->solid) { for (int c = 0; c < 4; c++) p[c] = o->solid8[c] / 255.0; return; }
+    if (o->has_one) { for (int c = 0; c < 4; c++) p[c] = o->onef[c]; return; }
     if (o->w == 1) x = 0;
     if (o->pal) { uint8_t p8[4]; operand_px8 (o, x, p8); for (int c = 0; c < 4; c++) p[c] = p8[c] / 255.0; return; }
     if (o->xdiv) x /= o->xdiv;
@@ -184,6 +199,22 @@ static void c01_case (long idx, vf_rng *r)
     int shared_pair = !exhaustive_alpha && mode == RO_UNIFIED && !force_runs && vf_chance (r, 1, 8);
     if (shared_pair) { int bgr = vf_chance (r, 1, 2); sf = bgr ? PIXMAN_x8b8g8r8 : PIXMAN_x8r8g8b8; mf = bgr ? PIXMAN_a8b8g8r8 : PIXMAN_a8r8g8b8; skind = mkind = 0; if (vf_chance (r, 1, 2)) op = PIXMAN_OP_OVER;
         if (vf_chance (r, 2, 3)) { static const pixman_format_code_t pd[] = { PIXMAN_a8r8g8b8, PIXMAN_x8r8g8b8, PIXMAN_r5g6b5, PIXMAN_a8b8g8r8, PIXMAN_x8b8g8r8, PIXMAN_b5g6r5 }; df = VF_PICK (r, pd); } }
+    /* a third of the cases take operator, formats and mask mode from an entry of the implementations' fast-path tables (C, MMX, SSE2, SSSE3), so that every
+     * dedicated routine for untransformed operands is held to the equations in whichever chain is running */
+    if (!exhaustive_alpha && !shared_pair && !force_runs && n_recipes && vf_chance (r, 1, 3)) {
+        const recipe_t *rc = &recipes[vf_next (r) % n_recipes];
+        if (!rc->is_iter) { const pixman_fast_path_t *e = &rc->fp; int okf = 1;
+            pixman_format_code_t d2 = e->dest_format, s2 = e->src_format, m2 = e->mask_format; int sk2 = 0, mk2 = 0, mode2 = RO_NOMASK;
+            if (!pixman_format_supported_destination (d2)) okf = 0;
+            if (s2 == PIXMAN_solid) { sk2 = vf_chance (r, 2, 3) ? 1 : 2; s2 = PIXMAN_a8r8g8b8; } else if (!pixman_format_supported_source (s2)) okf = 0;
+            if (m2 != PIXMAN_null) { mode2 = (e->mask_flags & FAST_PATH_COMPONENT_ALPHA) ? RO_CA : RO_UNIFIED;
+                if (m2 == PIXMAN_solid) { mk2 = vf_chance (r, 2, 3) ? 1 : 2; m2 = PIXMAN_a8r8g8b8; } else if (!pixman_format_supported_source (m2)) okf = 0; }
+            if (okf && e->op < PIXMAN_OP_any && !(rp_is_indexed (d2) || PIXMAN_FORMAT_TYPE (s2) == PIXMAN_TYPE_YUY2 || PIXMAN_FORMAT_TYPE (s2) == PIXMAN_TYPE_YV12)) {
+                op = e->op; df = d2; sf = s2; skind = sk2; mode = mode2; if (mode != RO_NOMASK) { mf = m2; mkind = mk2; }
+                if (n < 8 && vf_chance (r, 1, 2)) n += 8 + (int)(vf_next (r) % 24);
+                vf_count ("table_directed_cases", 1); vf_label ("table_directed", "%s#%d", imp_names[rc->imp], rc->index); }
+        }
+    }
     if (skind == 1) sf = PIXMAN_a8r8g8b8;          /* a solid fill has no storage format; it is a narrow operand */
     if (mkind == 1) mf = PIXMAN_a8r8g8b8;
     int narrow = !rp_is_wide (df) && !rp_is_wide (sf) && (mode == RO_NOMASK || !rp_is_wide (mf)) && !ro_needs_float (op);
